@@ -506,6 +506,19 @@ func c02(c *Ctx) {
 				guard(func() { ok3, _, _ = service.VerifyAPREQ(&req, st) })
 				c.Check(!ok3, "a replay is recognised whatever name type the cleartext service name carries", "e2e:replay-other-nametype", "", map[string]interface{}{"etype": et})
 			}
+			// "within one service process": the same bytes through other settings objects of the same service - another
+			// permitted skew, a keytab principal override naming the same principal - are the same authenticator
+			for si, st2 := range []*service.Settings{
+				service.NewSettings(svc.kt, service.MaxClockSkew(5*time.Minute), service.DecodePAC(false)),
+				service.NewSettings(svc.kt, service.MaxClockSkew(d+time.Second), service.DecodePAC(false)),
+				service.NewSettings(svc.kt, service.MaxClockSkew(d), service.DecodePAC(false), service.KeytabPrincipal(joinSlash(svc.sname))),
+				service.NewSettings(svc.kt),
+			} {
+				req := m.req
+				var ok4 bool
+				guard(func() { ok4, _, _ = service.VerifyAPREQ(&req, st2) })
+				c.Check(!ok4, "a replay is recognised through every settings object of the service process", "e2e:replay-other-settings", fmt.Sprint("settings ", si), map[string]interface{}{"etype": et, "settings": si})
+			}
 			c.Check(ok1 && !ok2, "a fresh authenticator is accepted once and refused as a replay at once", "e2e:first-presentations", fmt.Sprint(ok1, e1, ok2), map[string]interface{}{"etype": et})
 			accepted := 0
 			if ok1 {
